@@ -19,6 +19,7 @@
 package staticfiles
 
 import (
+	"io"
 	"math/rand"
 	"net/http"
 	"os"
@@ -214,6 +215,10 @@ func (fs FileServer) serveFile(w http.ResponseWriter, r *http.Request) (int, err
 		w.Header().Add("Vary", "Accept-Encoding")
 		w.Header().Set("Content-Encoding", encoding.name)
 		w.Header().Set("Content-Length", strconv.FormatInt(encodedFileInfo.Size(), 10))
+		// ServeContent may answer without sending the file (a precondition
+		// of the request fails); coding and length of the file must not
+		// be on that answer
+		w = encodedFileWriter{w}
 		break
 	}
 
@@ -230,6 +235,30 @@ func (fs FileServer) serveFile(w http.ResponseWriter, r *http.Request) (int, err
 	http.ServeContent(w, r, d.Name(), d.ModTime(), f)
 
 	return http.StatusOK, nil
+}
+
+// encodedFileWriter is the response writer http.ServeContent gets when a
+// precompressed file is served: Content-Encoding and Content-Length have
+// been announced for that file. When ServeContent answers 412 Precondition
+// Failed instead (it writes that status without a body and without touching
+// those fields) they are taken back, so that the response is not announced
+// as a coded body of that length which then never comes.
+type encodedFileWriter struct{ http.ResponseWriter }
+
+func (w encodedFileWriter) WriteHeader(code int) {
+	if code == http.StatusPreconditionFailed {
+		w.Header().Del("Content-Encoding")
+		w.Header().Del("Content-Length")
+	}
+	w.ResponseWriter.WriteHeader(code)
+}
+
+// ReadFrom keeps the underlying writer's io.ReaderFrom (sendfile) in use.
+func (w encodedFileWriter) ReadFrom(r io.Reader) (int64, error) {
+	if rf, ok := w.ResponseWriter.(io.ReaderFrom); ok {
+		return rf.ReadFrom(r)
+	}
+	return io.Copy(struct{ io.Writer }{w.ResponseWriter}, r)
 }
 
 // IsHidden checks if file with FileInfo d is on hide list.
